@@ -80,3 +80,45 @@ func verifRun(once bool) {
 
 func VerifClusterDo()     { verifRun(false) }
 func VerifClusterDoOnce() { verifRun(true) }
+
+// VerifClusterDoHistory: two successive requests with the host list changing
+// in between; the second request must only contact hosts of the *current* list
+// (at most three, distinct), whatever the first request did.
+func VerifClusterDoHistory() {
+	verif.Option("map_order_symbolic", 1)
+	n := verif.Bound("history_second_list_candidates", 3, 4)
+	mk := func(tag string) stringset.Set {
+		s := stringset.New()
+		for i := 1; i <= n; i++ {
+			if verif.Choice(tag, 2) == 1 {
+				s.Add(verifAddrs[i])
+			}
+		}
+		return s
+	}
+	hl := &verifHostList{set: stringset.New(verifAddrs[0], verifAddrs[1])}
+	cc := &clusterClient{hosts: hl}
+	var contacted []string
+	req := func(c Client) error {
+		contacted = append(contacted, c.(*singleClient).addr)
+		switch verif.Choice("outcome", 3) {
+		case 0:
+			return nil
+		case 1:
+			return httputil.NetworkError{}
+		}
+		return errors.New("status 500")
+	}
+	cc.do(req)
+	hl.set = mk("in_second")
+	contacted = nil
+	cc.do(req)
+	verif.Cover("second-list-differs", len(hl.set) > 0)
+	verif.Assert("at-most-three", len(contacted) <= 3)
+	for i, a := range contacted {
+		verif.Assert("from-current-list", hl.set.Has(a))
+		for j := 0; j < i; j++ {
+			verif.Assert("distinct", contacted[j] != a)
+		}
+	}
+}
